@@ -803,18 +803,8 @@ fn comp_corpus(seed: u64, first: usize, count: usize, out: &Path, runtime_rlib: 
     let gen_dir = out.join("gen");
     std::fs::create_dir_all(&gen_dir).map_err(|e| e.to_string())?;
     let mut items: Vec<CorpusItem> = Vec::new();
-    let mut idx = first;
-    let mut tried = 0;
-    while items.len() < count && tried < count * 6 {
-        let i = idx;
-        idx += 1;
-        tried += 1;
-        let (p, _) = program_for(seed, i as u64);
-        if p.rules.is_empty() {
-            continue;
-        }
-        let stem = format!("pg{}", letters(i));
-        let text = lang::print::program(&p);
+    // builds one program through the component path; Ok(false) = rejected (not part of either corpus)
+    let mut build_one = |stem: String, text: String, p: Program, origin: String, items: &mut Vec<CorpusItem>| -> Result<bool, String> {
         let dir = gen_dir.join(&stem);
         let in_dir = dir.join("in");
         std::fs::create_dir_all(&in_dir).map_err(|e| e.to_string())?;
@@ -833,18 +823,50 @@ fn comp_corpus(seed: u64, first: usize, count: usize, out: &Path, runtime_rlib: 
         let r = std::panic::catch_unwind(std::panic::AssertUnwindSafe(|| eqlog::process(&config).map_err(|e| format!("{e}"))));
         match r {
             Ok(Ok(())) => {}
-            // rejected programs simply are not part of either corpus
-            Ok(Err(_)) | Err(_) => continue,
+            Ok(Err(_)) | Err(_) => return Ok(false),
         }
         let module = std::fs::read_to_string(dir.join("out").join(format!("{stem}.eql.rs"))).map_err(|e| e.to_string())?;
         let driver = gen_driver(&p, &module, &stem)?;
         write_if_changed(&dir.join(format!("{stem}.driver.rs")), &driver)?;
-        items.push(CorpusItem {
-            stem,
-            text,
-            origin: format!("gen:{seed}:{i}"),
-            program: p,
-        });
+        items.push(CorpusItem { stem, text, origin, program: p });
+        Ok(true)
+    };
+    let mut idx = first;
+    let mut tried = 0;
+    while items.len() < count && tried < count * 6 {
+        let i = idx;
+        idx += 1;
+        tried += 1;
+        let (p, _) = program_for(seed, i as u64);
+        if p.rules.is_empty() {
+            continue;
+        }
+        let stem = format!("pg{}", letters(i));
+        let text = lang::print::program(&p);
+        build_one(stem, text, p, format!("gen:{seed}:{i}"), &mut items)?;
+    }
+    // a few programs with a model declaration (both families): their member relations have own /
+    // all index copies and their modules call recompute_model_indices around the rule components
+    let n_models = (count / 4).max(1);
+    let mut got = 0;
+    for i in 0..n_models * 2 {
+        if got >= n_models {
+            break;
+        }
+        let mp = model_program_for(seed, i as u64);
+        if build_one(format!("pm{}", letters(i)), mp.text.clone(), mp.program, format!("genmodel:{seed}:{i}"), &mut items)? {
+            got += 1;
+        }
+    }
+    let mut got = 0;
+    for i in 0..n_models * 2 {
+        if got >= n_models {
+            break;
+        }
+        let mp = member_program_for(seed, i as u64);
+        if build_one(format!("pn{}", letters(i)), mp.text.clone(), mp.program, format!("genmember:{seed}:{i}"), &mut items)? {
+            got += 1;
+        }
     }
     // one crate that includes the component-build modules and links the component libraries
     let dir = out.join("pgc");
